@@ -25,10 +25,10 @@ def dedupe(lines):
 def run(ctx):
     drv = ctx.build("c39")
     ctx.model_check("chain/MCChainCrash", "chain/MCChainCrash" if not ctx.thorough else "chain/MCChainCrashThorough",
-                    timeout=ctx.pick(3000, 10800), workers=4, name="MCChainCrash", coverage=ctx.thorough)
+                    timeout=ctx.pick(3600, 21600), workers=4, name="MCChainCrash", coverage=ctx.thorough)
     res = ctx.tlc("chain/MCChainCrash", "chain/MCChainCrashSim" if not ctx.thorough else "chain/MCChainCrashSimThorough",
                   simulate="num=%d" % ctx.pick(25, 300), depth=ctx.pick(10, 12), tags=("MBT",), workers=4,
-                  timeout=ctx.pick(3000, 7200), name="MCChainCrashSim")
+                  timeout=ctx.pick(3600, 21600), name="MCChainCrashSim")
     if res.error or res.timeout:
         raise InfraError("TLC simulation failed: %s\n%s" % (res.error, res.stdout[-2000:]))
     beh = dedupe(res.lines.get("MBT", []))
@@ -37,7 +37,7 @@ def run(ctx):
     bp = os.path.join(ctx.scratch, "behaviours.json")
     write_json(bp, beh)
     ctx.cov["traces_validated_against_impl"] += 0
-    s, _ = ctx.drive(drv, ["-mode", "replay", "-in", bp, "-chunk", 40], name="c39-replay", timeout=ctx.pick(3600, 14400))
+    s, _ = ctx.drive(drv, ["-mode", "replay", "-in", bp, "-chunk", 40], name="c39-replay", timeout=ctx.pick(3600, 21600))
     # every replayed behaviour is a crash/restart history of the real code accepted by the specification step by step
     if not s.get("violations"):
         ctx.cov["traces_validated_against_impl"] += int(s.get("evaluations", 0))
@@ -48,8 +48,8 @@ def run(ctx):
     drv38 = ctx.build("c38")
     tp = os.path.join(ctx.scratch, "crashin.ndjson")
     s2, _ = ctx.drive(drv38, ["-mode", "record", "-trace", tp, "-n", ctx.pick(150, 1500), "-steps", 12, "-blocks", 7, "-ntx", 3, "-crashin", 3],
-                      name="c38-crashin", timeout=ctx.pick(3600, 14400))
-    ok, consumed, total, r = ctx.validate("chain/ChainTrace", tp, cfg="chain/ChainTraceRec", ntraces=s2["traces"], timeout=ctx.pick(3000, 10800),
+                      name="c38-crashin", timeout=ctx.pick(3600, 21600))
+    ok, consumed, total, r = ctx.validate("chain/ChainTrace", tp, cfg="chain/ChainTraceRec", ntraces=s2["traces"], timeout=ctx.pick(3600, 21600),
                                           name="ChainTraceRec")
     if not ok:
         ctx.reject_trace("chain/ChainTrace", tp, consumed, r, cfg="chain/ChainTraceRec")
